@@ -351,10 +351,8 @@ impl Harness for ShutdownHarness {
         if std::env::var("VSIM_LEFT").is_ok() {
             eprintln!("LEFT {:?} order {:?} params {:?}", left, errs.lock().map(|e| e.drop_order.clone()).unwrap_or_default(), plan.params);
         }
-        let mut g = match errs.lock() {
-            Ok(g) => g,
-            Err(p) => p.into_inner(),
-        };
+        #[allow(unused_mut)]
+        let mut g = take_after_run(&errs);
         // what is documented to persist per domain: the nodes/ and services/ directories and the
         // domain-wide management segment
         let root = root_of(pid);
